@@ -7,7 +7,7 @@ from typing import Dict, List, Optional, Set
 from ..excflow import ExcFlow, header_exprs, walk_expr
 from ..model import AnalysisError, ClassInfo, FuncInfo, Program, dotted, own_nodes, unparse
 from ..symex import always_leaves, facts_for, phi_alternatives
-from .common import U, bind_args, const_value, is_self_attr, returns_of, short, np_call
+from .common import control_result_args, U, bind_args, const_value, is_self_attr, returns_of, short, np_call
 
 EVAL = "pygradflow.eval.EvalError"
 SSE = "pygradflow.step.step_solver_error.StepSolverError"
@@ -168,8 +168,7 @@ def failure_result(prog: Program, rep, x: ExcFlow) -> None:
             owner = nf
         else:
             val = ff.resolved(last, val)
-        ok_call = isinstance(val, ast.Call) and dotted(val.func) == "StepControlResult"
-        b = bind_args(scr, val) if ok_call else None
+        b = control_result_args(prog, val)
         if not b:
             rep.fail("failure-result-shape", cs.qualname, short(last), "VIOLATED: failure handler does not return a StepControlResult(...)", cs.loc(last))
             continue
@@ -217,9 +216,8 @@ def validate_before_accept(prog: Program, rep, x: ExcFlow) -> None:
         val = ff.resolved(r, r.value)
         vt = U(val)
         # a result that is literally not accepted needs no validation
-        if isinstance(val, ast.Call) and dotted(val.func) == "StepControlResult":
-            scr = prog.func("pygradflow.step.step_control.StepControlResult.__init__")
-            b = bind_args(scr, val)
+        if control_result_args(prog, val) is not None:
+            b = control_result_args(prog, val)
             if b and isinstance(b["accepted"], ast.Constant) and b["accepted"].value is False:
                 rep.ok("validate-before-accept", cs.short, "literal non-accepted result needs no validation")
                 continue
@@ -474,8 +472,41 @@ def evaluators(prog: Program, rep) -> None:
         rep.check(ok, "evaluator-empty-shortcut", m.qualname, mname, "SimpleEvaluator short-circuits m == 0 as well", m.loc())
     ce = prog.func("pygradflow.eval.create_evaluator")
     cf = facts_for(ce)
-    ok = False
+    # which class is instantiated under which condition: `return A(..)` in branches, `cls = A if flag else B`, `cls = A` in branches
+    from .common import UnknownAtom, fact_holds, leaf_stores
+
+    def split(e, facts):
+        if isinstance(e, ast.IfExp):
+            yield from split(e.body, list(facts) + [("truthy", U(e.test), None)])
+            yield from split(e.orelse, list(facts) + [("falsy", U(e.test), None)])
+        else:
+            yield U(e), list(facts)
+    alts = []
     for r in returns_of(ce):
-        if isinstance(r.value, ast.Call) and dotted(r.value.func) == "ValidatingEvaluator":
-            ok = ("truthy", "params.validate_input", None) in cf.at(r).facts
+        v = r.value
+        if not isinstance(v, ast.Call):
+            raise AnalysisError("create_evaluator: a return is not a constructor call")
+        if isinstance(v.func, ast.Name) and prog.resolve_symbol(ce.module, v.func.id) is None:
+            stores = leaf_stores(cf, v.func.id, before=cf.at(r).index)
+            if not stores:
+                raise AnalysisError(f"create_evaluator: cannot find what `{v.func.id}` holds")
+            for s_ in stores:
+                alts += list(split(s_.stmt.value, list(s_.facts) + list(cf.at(r).facts)))
+        else:
+            alts += list(split(v.func, cf.at(r).facts))
+
+    def atom(flag):
+        def av(f):
+            op, l, r_ = f
+            if r_ is None and l == "params.validate_input" and op in ("truthy", "falsy"):
+                return flag if op == "truthy" else not flag
+            if l == "params.validate_input" and r_ in ("True", "False") and op in ("==", "!=", "is", "is not"):
+                return (flag == (r_ == "True")) == (op in ("==", "is"))
+            raise UnknownAtom(str(f))
+        return av
+    try:
+        sel = [c_ for c_, fs_ in alts if all(fact_holds(f, atom(True)) for f in fs_)]
+    except UnknownAtom as e:
+        raise AnalysisError(f"create_evaluator: the selection depends on `{e}`, which the rule cannot evaluate")
+    ok = sel == ["ValidatingEvaluator"]
     rep.check(ok, "evaluator-selection", ce.qualname, "ValidatingEvaluator", "create_evaluator selects the validating evaluator when validate_input is set", ce.loc())
